@@ -998,7 +998,7 @@ class n0dict(n0dict_):
                 #================================
                 return parent_node, None, parent_node, xpath_found_str, None
             else:
-                return self._find(xpath_found_str, self, return_lists, "/")
+                return n0dict._find(self, xpath_found_str, self, return_lists, "/")
 
         node_name, node_index = split_name_index(xpath_list[0])
         if not node_name and not node_index:
@@ -1013,7 +1013,7 @@ class n0dict(n0dict_):
             # ..................................................................
             if node_name == "..":
                 cur_parent_node, cur_node_name_index, cur_value, cur_found_xpath_str, \
-                    cur_not_found_xpath_list = self._find(
+                    cur_not_found_xpath_list = n0dict._find(self,
                         # '..' is already not included into xpath_found_str, so just remove only last node
                         [itm for itm in xpath_found_str.split('/') if itm][:-1],
                         self,
@@ -1033,9 +1033,9 @@ class n0dict(n0dict_):
 
                 if node_index or len(xpath_list) > 1:
                     if node_index:
-                        return self._find([f"[{node_index}]"] + xpath_list[1:], nxt_parent_node, return_lists, cur_found_xpath_str)
+                        return n0dict._find(self, [f"[{node_index}]"] + xpath_list[1:], nxt_parent_node, return_lists, cur_found_xpath_str)
                     else:
-                        return self._find(                      xpath_list[1:], nxt_parent_node, return_lists, cur_found_xpath_str)
+                        return n0dict._find(self,                       xpath_list[1:], nxt_parent_node, return_lists, cur_found_xpath_str)
                 else:
                     # ================================
                     # FOUND: the last is n0dict
@@ -1048,7 +1048,7 @@ class n0dict(n0dict_):
                 # *******************************
                 # Indulge #1 for incorrect syntax -- [*] was skipped for list in xpath
                 # *******************************
-                return self._find(["[*]"] + xpath_list, parent_node, return_lists, xpath_found_str)
+                return n0dict._find(self, ["[*]"] + xpath_list, parent_node, return_lists, xpath_found_str)
 
             # if not isinstance(parent_node, (dict, OrderedDict, n0dict)):
             if not isinstance(parent_node, dict):
@@ -1062,7 +1062,7 @@ class n0dict(n0dict_):
                 for next_node_name in parent_node:
                     cur_parent_node, cur_node_name_index, \
                     cur_value, cur_found_xpath_str, cur_not_found_xpath_list = \
-                            self._find(
+                            n0dict._find(self,
                                         # [next_node_name] + new_xpath_list, # mypy: error: Name 'new_xpath_list' is not defined
                                         [next_node_name] + xpath_list,
                                         # 0.50: return_lists, parent_node,
@@ -1098,7 +1098,7 @@ class n0dict(n0dict_):
                 if isinstance(node_index, tuple) and \
                    node_index[0] == "text()" and node_index[1][1] in "=~" and node_index[2] == "" and \
                    len(xpath_list) >= 2 and xpath_list[1] == '..':
-                    return self._find(xpath_list[2:], parent_node, return_lists, xpath_found_str)
+                    return n0dict._find(self, xpath_list[2:], parent_node, return_lists, xpath_found_str)
                 else:
                     return parent_node, None, None, xpath_found_str, xpath_list
 
@@ -1111,14 +1111,14 @@ class n0dict(n0dict_):
             # Deeper
             #*******************************
             if node_index is None:
-                return self._find(
+                return n0dict._find(self,
                                 xpath_list[1:],
                                 parent_node[node_name],
                                 return_lists,
                                 xpath_found_str + '/' + node_name
                 )
             else:
-                return self._find(
+                return n0dict._find(self,
                                 [
                                     f"[{node_index[0]}{node_index[1]}'{node_index[2]}']"
                                     if isinstance(node_index, tuple)
@@ -1137,7 +1137,7 @@ class n0dict(n0dict_):
             #--------------------------------
             if node_index == "new()":
                 parent_node, node_name_index, cur_value, xpath_found_str, \
-                    _not_found_xpath_list = self._find(xpath_found_str, self, return_lists)
+                    _not_found_xpath_list = n0dict._find(self, xpath_found_str, self, return_lists)
                 if not isinstance(parent_node[node_name_index], (list, tuple)):
                     parent_node[node_name_index] = n0list([parent_node[node_name_index]])
                 return parent_node[node_name_index], None, None, xpath_found_str, ["[new()]"] + xpath_list[1:]
@@ -1152,7 +1152,7 @@ class n0dict(n0dict_):
                 fst_parent_node = fst_node_name_index = fst_value = fst_found_xpath_str = None
                 for i, cur_node in enumerate(parent_node):
                     cur_parent_node, cur_node_name_index, cur_value, cur_found_xpath_str, \
-                        cur_not_found_xpath_list = self._find([f"[{i}]"] + xpath_list[1:], parent_node, return_lists, xpath_found_str)
+                        cur_not_found_xpath_list = n0dict._find(self, [f"[{i}]"] + xpath_list[1:], parent_node, return_lists, xpath_found_str)
                     if not cur_not_found_xpath_list:
                         cur_values.append(cur_value)
                         if not fst_found_xpath_str:
@@ -1196,7 +1196,7 @@ class n0dict(n0dict_):
                         # *******************************
                         # Deeper
                         # *******************************
-                        return self._find(xpath_list[1:], parent_node, return_lists, xpath_found_str)
+                        return n0dict._find(self, xpath_list[1:], parent_node, return_lists, xpath_found_str)
                     else:
                         #--------------------------------
                         # NOT FOUND: value is not expected
@@ -1207,14 +1207,14 @@ class n0dict(n0dict_):
                         # *******************************
                         # Not correct: indulge #2 in incorrect syntax -- [*] was skipped for list in xpath
                         # *******************************
-                        return self._find(["[*]"] + xpath_list, parent_node, return_lists, xpath_found_str)
+                        return n0dict._find(self, ["[*]"] + xpath_list, parent_node, return_lists, xpath_found_str)
 
                     if not isinstance(parent_node, dict):
                         raise IndexError(f"If key '{node_index[0]}' is set, then ({type(parent_node)})'{str(parent_node)}' must be n0dict at '{xpath_found_str}'")
                     if node_index[0] not in parent_node:
                         return parent_node, None, None, xpath_found_str, xpath_list
 
-                    return self._find(
+                    return n0dict._find(self,
                                         [f"[text(){node_index[1]}{node_index[2]}]", ".."] + xpath_list[1:],
                                         parent_node[node_index[0]],
                                         return_lists,
@@ -1250,7 +1250,7 @@ class n0dict(n0dict_):
                     #*******************************
                     # Deeper: any type under n0dict
                     #*******************************
-                    return self._find(xpath_list[1:], parent_node[node_index_int], return_lists, f"{xpath_found_str}[{node_index_int}]")
+                    return n0dict._find(self, xpath_list[1:], parent_node[node_index_int], return_lists, f"{xpath_found_str}[{node_index_int}]")
     # **************************************************************************
     # **************************************************************************
     def _add(self, parent_node, node_name_index: typing.Union[str, tuple], xpath_list: list) -> typing.Tuple[str, str]:
